@@ -188,12 +188,17 @@ PLAY_POSITIONS = [
     ("as-argument", "println(string_repr(%(call)s))\n"),
     ("in-loop-and-if", "let i = 0\nwhile i < 2 {\n  if True {\n    %(call)s\n  }\n  i += 1\n}\n"),
     ("after-output", "println(\"before\")\nlet v = [%(call)s]\nprintln(\"after\")\nv\n"),
+    # the sandbox must still be on after an earlier item of the same run has completed
+    ("toplevel-after-passing-test", "test p0 {\n  assert(1 == 1)\n}\n%(call)s\n"),
+    ("second-test-block", "test p0 {\n  assert(1 == 1)\n}\ntest t {\n  %(call)s\n}\n"),
 ]
 TEST_POSITIONS = [      # (label, body, where the offset points: 'test' or 'fun')
     ("test-direct", "test t {\n  %(call)s\n}\n", "test"),
     ("test-calls-function", "fun f() {\n  %(call)s\n}\n\ntest t {\n  f()\n}\n", "test"),
     ("test-closure-map", "test t {\n  [1, 2].map(fun(_x) { %(call)s })\n}\n", "test"),
     ("offset-in-function", "fun f() {\n  %(call)s\n}\n\ntest t {\n  f()\n}\n", "fun"),
+    # cursor outside every test: all tests of the file run, the one with the call after a completed one
+    ("all-tests-second", "// all tests\ntest p0 {\n  assert(1 == 1)\n}\n\ntest t {\n  %(call)s\n}\n", "outside"),
 ]
 
 
@@ -252,7 +257,7 @@ def run_case(exe, mode, prog_template, offset_kind, timeout):
             cmd = [exe, "run", pth]
         else:
             key = "test t" if offset_kind == "test" else "fun f"
-            off = src.index(key) + 2 if key in src else 0
+            off = src.index(key) + 2 if (key in src and offset_kind != "outside") else 0
             cmd = [exe, "sandboxed-test", pth, str(off)]
         before = snapshot(d)
         env = dict(os.environ)
@@ -317,7 +322,7 @@ def refused(mode, label, o):
     """Did the run end with the sandbox refusal?"""
     out = o["stdout"]
     if mode == "playground":
-        if label == "in-test-block":
+        if label in ("in-test-block", "second-test-block"):
             # a test that hits the sandbox is reported as failed and the run goes on
             return '"error":null' in out and "Failed: t" in out
         lines = [l for l in out.strip().split("\n") if l.strip()]
